@@ -85,6 +85,7 @@ def run(an: Analysis, rep):
     rep.stats.update(an.stats(interps))
     rep.run(r053, an, rep)
     rep.run(r05i, an, rep)
+    rep.run(r05k, an, rep)
     from .common import old_interpreter_rule
     rep.run(old_interpreter_rule, an, rep, "R05.V", ["normalize", "to_code", "from_code"])
     from .common import SharedRules
@@ -155,6 +156,56 @@ def r05i(an, rep):
                     f"`def f(x=(1000, 2000)): y = (1000, 2000); return x is y` change from True to False - executing both does not give the same results")
     if n == 0:
         rep.add("R05.I", "constants are handed to CodeType as decoded", True, "code_data/_constants.py", "the encoder makes no copies of constant tuples (C12's R12.8 decides whether that is safe)", nontrivial=False)
+
+
+def r05k(an, rep, rule="R05.K2"):
+    """What the encoder hands to CodeType for a constant is that constant: the function that prepares constants (the one whose first arm re-encodes a nested CodeData)
+    is folded over witness constants of every kind and must return an equal value of the same type at every level (a frozenset stays a frozenset: `x in {1, 2, 3}`
+    with a tuple constant answers membership the same, but an unhashable left operand no longer raises TypeError)."""
+    from sa.feval import BlockOutcome, FevalError, ObjEval
+    import math
+    rep.rule(rule, "constants are handed to CodeType with their value and type unchanged", 1)
+    target = None
+    for f in an.closure("to_code"):
+        if f.cls is None and len(f.params) == 1 and isinstance(f.node, ast.FunctionDef):
+            first = next((st for st in f.node.body if isinstance(st, ast.If)), None)
+            if first is not None and "CodeData" in norm_src(first.test) and any(isinstance(c, ast.Call) and isinstance(c.func, ast.Attribute) and c.func.attr == "to_code" for c in ast.walk(first)):
+                target = f
+    if target is None:
+        raise AnalysisError("the function that prepares a constant for CodeType (nested CodeData -> to_code()) was not found")
+
+    def resolve(name):
+        r = an.prog.resolve_global(target.module, name, target)
+        return r[1].node if r and r[0] == "func" else None
+
+    def same(a, b):
+        if type(a) is not type(b):
+            return False
+        if isinstance(a, tuple):
+            return len(a) == len(b) and all(same(x, y) for x, y in zip(a, b))
+        if isinstance(a, frozenset):
+            return len(a) == len(b) and all(any(same(x, y) for y in b) for x in a)
+        if isinstance(a, float):
+            return (math.isnan(a) and math.isnan(b)) or (a == b and math.copysign(1, a) == math.copysign(1, b))
+        return a == b
+    W = [1, True, "a", b"x", None, Ellipsis, 1.5, -0.0, complex(0.0, -0.0), (1, ("b", 2.0)), frozenset({1, 2, 3}), (frozenset({("c", 1)}), 7), frozenset({("alpha", 1), ("beta", 2)})]
+    bad = []
+    for w in W:
+        ev = ObjEval(resolve, extra={"CodeData": type("CodeData", (), {})})
+        ev.module_assigns = target.module.assigns
+        try:
+            got = ev.call_method(target.node, w)
+        except BlockOutcome as o:
+            bad.append(f"{w!r}: stops at `{norm_src(o.node)[:50]}`")
+            continue
+        except Exception as ex:  # noqa: BLE001
+            raise AnalysisError(f"{target.qual}: not evaluable on the witness constant {w!r} ({type(ex).__name__}: {ex})")
+        if not same(got, w):
+            bad.append(f"the constant {w!r} is handed to CodeType as {got!r}")
+    rep.add(rule, f"{target.qual}::every kind of constant keeps its value and type", not bad, loc(target.module, target.node),
+            f"{len(W)} witness constants (scalars, nested tuples, frozensets, tuples inside frozensets) come out equal and of the same type" if not bad else
+            f"{bad[0]}: the re-encoded program loads another kind of object (`x in {{1, 2, 3}}` with a tuple instead of the frozenset: `[] in ...` returns False instead of raising TypeError, "
+            f"`type(c)` / `hash` / set operations on the constant differ)")
 
 
 def r053(an, rep):
